@@ -11,11 +11,12 @@ from __future__ import annotations
 
 import ast
 import itertools
+import zlib
 from typing import List
 
 from pyanalyze.signature import OverloadedSignature, ParameterKind, Signature, SigParameter
 from pyanalyze.stacked_scopes import Composite
-from pyanalyze.value import AnySource, AnyValue, KnownValue, MultiValuedValue, flatten_values
+from pyanalyze.value import AnySource, AnyValue, GenericValue, KnownValue, MultiValuedValue, TypedValue, flatten_values
 
 from vf.common import Atom, MiniVisitor, Rel, get_checker, ref_accepts
 from vf.engine import Case
@@ -29,7 +30,7 @@ FUNCTIONS_ENCODED = [
     "pyanalyze.value.can_assign_and_used_any, pyanalyze.checker.Checker.reset_any_used / record_any_used / has_used_any_match",
 ]
 BOUNDS = {
-    "quick": {"overload_sets": "2 or 3 overloads, each with 1 or 2 parameters (positional-or-keyword or keyword-only), annotations atom / union of two atoms; overlapping and shadowed sets included",
+    "quick": {"overload_sets": "2 or 3 overloads, each with 1 or 2 parameters (positional-or-keyword, keyword-only, typed *args or **kwargs), annotations atom / union of two atoms; overlapping and shadowed sets included",
               "arguments": "atoms, one union of two atoms (three atoms against three or more overloads), or Any; passed positionally or by keyword", "relation": "every preorder on 3 atoms (6 symbolic booleans)"},
     "thorough": {"overload_sets": "2 to 4 overloads", "arguments": "same", "relation": "same"},
 }
@@ -53,6 +54,12 @@ def _mk_sig(spec, atoms, ret):
     for i, p in enumerate(spec):
         nm, ann, kwonly = p[0], p[1], p[2]
         has_default = len(p) > 3 and p[3]
+        if kwonly == "star":  # *args: ann
+            params.append(SigParameter(nm, ParameterKind.VAR_POSITIONAL, annotation=GenericValue(tuple, [_ann(ann, atoms)])))
+            continue
+        if kwonly == "dstar":  # **kwargs: ann
+            params.append(SigParameter(nm, ParameterKind.VAR_KEYWORD, annotation=GenericValue(dict, [TypedValue(str), _ann(ann, atoms)])))
+            continue
         kind = ParameterKind.KEYWORD_ONLY if kwonly else ParameterKind.POSITIONAL_OR_KEYWORD
         params.append(SigParameter(nm, kind, annotation=_ann(ann, atoms),
                                    default=_ann(ann, atoms) if has_default else None))
@@ -75,20 +82,35 @@ def _members(name):
 def _ref_sig_accepts(rel, atoms, spec, call) -> bool:
     """does one overload bind the call shape and accept every argument? (Any accepted everywhere)"""
     spec = [tuple(p) + (False,) * (4 - len(p)) for p in spec]
+    star = [p for p in spec if p[2] == "star"]
+    dstar = [p for p in spec if p[2] == "dstar"]
+    spec = [p for p in spec if p[2] not in ("star", "dstar")]
     names = [p[0] for p in spec]
     given = {}
     pos = [a for a in call if a[0] is None]
     posparams = [p for p in spec if not p[2]]
+    extra = []  # (annotation, argument) pairs absorbed by *args / **kwargs
     if len(pos) > len(posparams):
-        return False
+        if not star:
+            return False
+        extra += [(star[0][1], argname) for lbl, argname in pos[len(posparams):]]
+        pos = pos[:len(posparams)]
     for (lbl, argname), p in zip(pos, posparams):
         given[p[0]] = argname
     for lbl, argname in call:
         if lbl is None:
             continue
-        if lbl not in names or lbl in given:
+        if lbl in given:
             return False
+        if lbl not in names:
+            if not dstar:
+                return False
+            extra.append((dstar[0][1], argname))
+            continue
         given[lbl] = argname
+    for ann, argname in extra:
+        if argname != "any" and not ref_accepts(rel, _ann(ann, atoms), _ann(argname, atoms)):
+            return False
     for nm, ann, kwonly, has_default in spec:
         if nm not in given:
             if has_default:
@@ -123,6 +145,18 @@ def h08(b0: bool, b1: bool, b2: bool, b3: bool, b4: bool, b5: bool) -> bool:
     sigs = [_mk_sig(spec, atoms, RETS[i]) for i, spec in enumerate(specs)]
     ov = OverloadedSignature(sigs)
     vis = MiniVisitor()
+    if data.get("star"):
+        # the argument arrives as *seq (seq: list[<union>]): no position of its own to narrow - a verdict must still
+        # come back (no exception), and a sequence none of whose member types any overload takes is diagnosed
+        from pyanalyze.signature import ARGS
+
+        elem = _arg_value(call[0][1], atoms)
+        ret = ov.check_call([(Composite(GenericValue(list, [elem])), ARGS)], vis, NODE)
+        diagnosed = len(vis.errors) > 0
+        mems = _members(call[0][1])
+        if all(_first_match(rel, atoms, specs, [(None, m)]) is None for m in mems):
+            return fin(diagnosed)
+        return fin(True)
     args = [(Composite(_arg_value(argname, atoms)), lbl) for lbl, argname in call]
     ret = ov.check_call(args, vis, NODE)
     diagnosed = len(vis.errors) > 0
@@ -207,7 +241,7 @@ def _sig_specs(nparams_options, kwonly_options):
 
 def _label(sigs, call):
     def s1(spec):
-        return "(" + ",".join(("*" if p[2] else "") + p[0] + ":" + p[1] + ("=" if len(p) > 3 and p[3] else "") for p in spec) + ")"
+        return "(" + ",".join(({"star": "*", "dstar": "**"}.get(p[2]) or ("*," if p[2] else "")) + p[0] + ":" + p[1] + ("=" if len(p) > 3 and p[3] else "") for p in spec) + ")"
     return "".join(s1(s) for s in sigs) + "<-" + ",".join((lbl + "=" if lbl else "") + a for lbl, a in call)
 
 
@@ -282,6 +316,28 @@ def cases(tier: str, seed: int) -> List[Case]:
                         if any(c.label == lab for c in out[-4:]):
                             continue
                         out.append(Case("h08", lab, {"sigs": sigs, "call": call}, timeout=60 if quick else 180, twin=(idx % 6 == 0)))
+    for combo in itertools.product(one[:3], repeat=2):
+        for arg in ("u01", "u12", "a0"):
+            sigs = [list(map(list, sg)) for sg in combo]
+            call = [[None, arg]]
+            out.append(Case("h08", "star:" + _label(sigs, call), {"sigs": sigs, "call": call, "star": 1}, timeout=60, twin=False))
+    # overloads with typed *args / **kwargs: an omitted variadic parameter is not an Any match, extra arguments are
+    # checked against the variadic annotation
+    for a1 in ANN[:3]:
+        for a2 in ANN[:3]:
+            for a3 in ANN[:4]:
+                for vk, vn in (("star", "args"), ("dstar", "kw")):
+                    s1 = [["x", a1, False], [vn, a2, vk]]
+                    s2 = [["x", a3, False]]
+                    for order in ((s1, s2), (s2, s1)):
+                        for call in ([[None, "a0"]], [[None, "a1"]], [[None, "u01"]], [[None, "a0"], [None if vk == "star" else "y", "a1"]],
+                                     [[None, "any"]]):
+                            idx += 1
+                            sigs = [[list(p) for p in sg] for sg in order]
+                            lab = _label(sigs, call)
+                            if (zlib.crc32(lab.encode()) + seed) % (6 if quick else 2) != 0:
+                                continue
+                            out.append(Case("h08", lab, {"sigs": sigs, "call": call}, timeout=60 if quick else 180, twin=(idx % 6 == 0)))
     # an overload whose second parameter has a default, next to a one-parameter overload: calls with one argument
     # reach both
     for s1 in one[:3]:
